@@ -16,6 +16,7 @@ type Op struct {
 	Body   []byte
 	Hdr    map[string]string
 	Events []string
+	Site   string // lock-site substring for ops that hold a goroutine
 
 	fromQueue bool
 	extraPoll bool
@@ -70,7 +71,8 @@ type InvBehav struct {
 	Hdr        map[string]string
 	ExtraPolls int // polls again this many times before answering (must get the same invocation)
 	Exit       int
-	Race       string // "response" / "error": the same answer is also submitted on a second connection at the same moment
+	Race       string // "response" / "error": the same answer is also submitted on a second connection, its handler held at RaceSite
+	RaceSite   string
 }
 
 // InvSpec is one planned invocation.
@@ -232,6 +234,10 @@ func (e *Engine) healthyOp(s *actorState) (Op, bool) {
 			// a real runtime treats a refused submission as fatal (aws-lambda-go, the Python RIC: log and exit non-zero)
 			return Op{Kind: "exit", N: 1}, true
 		}
+		if a.st == "pairwait" {
+			// one of two concurrent submissions is still outstanding: the runtime waits for it
+			return Op{}, false
+		}
 		if len(s.queue) > 0 {
 			op := s.queue[0]
 			op.fromQueue = true
@@ -299,7 +305,7 @@ func (e *Engine) answerOp(s *actorState) (Op, bool) {
 							body = []byte{}
 						}
 						if pb.Race != "" {
-							return Op{Kind: "response-race", Arg: pb.Race, Body: body, Hdr: pb.Hdr}, true
+							return Op{Kind: "response-race", Arg: pb.Race, Site: pb.RaceSite, Body: body, Hdr: pb.Hdr}, true
 						}
 						return Op{Kind: "response", Body: body, Hdr: pb.Hdr}, true
 					}
@@ -426,16 +432,22 @@ func (e *Engine) doOp(s *actorState, op Op, scripted bool) {
 		c := a.Response(id, e.respBody(s, op), op.Hdr)
 		c.ExpectAccept, c.Judged = exp, true
 	case "response-race":
-		// the answer on the main connection and a duplicate (another /response, or an /error) on a second connection,
-		// both for the in-flight id, issued in the same step: exactly one of them may be accepted
+		// a duplicate of the answer (another /response, or an /error) for the in-flight id is under way on a second
+		// connection - its handler descheduled at a lock site drawn by the scenario - when the answer itself is
+		// submitted on the main connection: exactly one of the two may be accepted
 		id := a.CurReqID
 		body := e.respBody(s, op)
+		if op.Site != "" {
+			e.r.AddHold(op.Site, 1, 2)
+		}
+		e.r.NextStep()
 		var side *Call
 		if op.Arg == "error" {
 			side = a.SideStart("rt-error-dup", "POST", rtBase+"/invocation/"+id+"/error", map[string]string{"Lambda-Runtime-Function-Error-Type": "Function.Race"}, body)
 		} else {
 			side = a.SideStart("rt-response-dup", "POST", rtBase+"/invocation/"+id+"/response", op.Hdr, body)
 		}
+		e.r.Settle() // the duplicate runs until it is answered or held
 		e.r.Fault("concurrent-duplicate-submission")
 		a.ResponseWith(side, id, body, op.Hdr)
 	case "response-die", "error-die":
@@ -818,6 +830,7 @@ func (e *Engine) Run() {
 	r := e.r
 	for e.Actions = 0; e.Actions < e.MaxActions; {
 		e.spawn()
+		e.w.absorb()
 		e.noteOutcomes()
 		acts, due, hasDue := e.enabled()
 		if len(acts) == 0 && r.HeldNow() && !hasDue {
